@@ -7,6 +7,7 @@ import (
 	"fmt"
 	"math/rand/v2"
 	"os"
+	"os/exec"
 	"path/filepath"
 	"sort"
 	"strconv"
@@ -15,7 +16,14 @@ import (
 	"time"
 )
 
-const Root = "/verif"
+// Root is /verif; VERIF_ROOT overrides it so that a monitor can be tried
+// against a scratch copy (mutant validation) without touching real evidence.
+var Root = func() string {
+	if r := os.Getenv("VERIF_ROOT"); r != "" {
+		return r
+	}
+	return "/verif"
+}()
 
 type Finding struct {
 	Property string `json:"property"`
@@ -249,4 +257,49 @@ func (r *Run) Finish(evaluations, distinct, minDistinct int, rule string) {
 		os.Exit(2)
 	}
 	os.Exit(0)
+}
+
+// Harness is the harness module directory (VERIF_HARNESS overrides it).
+func Harness() string {
+	if h := os.Getenv("VERIF_HARNESS"); h != "" {
+		return h
+	}
+	return "/verif/harness"
+}
+
+// GoEnv is the environment for go commands run by checks.
+func GoEnv() []string {
+	var env []string
+	for _, e := range os.Environ() {
+		if strings.HasPrefix(e, "GOFLAGS=") || strings.HasPrefix(e, "GOPROXY=") || strings.HasPrefix(e, "GOTOOLCHAIN=") || strings.HasPrefix(e, "GOSUMDB=") {
+			continue
+		}
+		env = append(env, e)
+	}
+	return append(env, "GOFLAGS=-mod=mod", "GOPROXY=off")
+}
+
+var binMu sync.Mutex
+
+// BuildBin (re)builds a binary from the harness module — hence from /repo's
+// current working tree — with the verif tag into Root/bin and returns its path.
+// pkg is e.g. "honnef.co/go/tools/cmd/staticcheck" or "./cmd/vlint".
+func (r *Run) BuildBin(name, pkg string, race bool) string {
+	binMu.Lock()
+	defer binMu.Unlock()
+	out := filepath.Join(Root, "bin", name)
+	os.MkdirAll(filepath.Dir(out), 0o755)
+	args := []string{"build", "-tags", "verif"}
+	if race {
+		args = append(args, "-race")
+	}
+	args = append(args, "-o", out, pkg)
+	cmd := exec.Command("go", args...)
+	cmd.Dir = Harness()
+	cmd.Env = GoEnv()
+	if b, err := cmd.CombinedOutput(); err != nil {
+		fmt.Printf("INCONCLUSIVE property=%s build of %s failed: %v\n%s\n", r.ID, pkg, err, b)
+		os.Exit(2)
+	}
+	return out
 }
